@@ -502,6 +502,14 @@ class StmtMixin:
 
     def eval_inv(self, inv_fn, ordinal: int, what: str, line: int, extra: dict):
         c = self.cur_contract
+        if isinstance(inv_fn, (list, tuple)) and what in ("entry", "step") and c is not None and c.inherits:
+            # a variant contract: the inherited invariant is established and preserved under the function's plain
+            # contract (weaker precondition, weaker loop-head assumption) - only the variant's own addition is to be
+            # shown here; at the loop head both are assumed
+            own = [f_ for f_ in inv_fn[1:] if f_ is not None]
+            if not own:
+                return z3.BoolVal(True)
+            inv_fn = own
         with self.scope(extra):
             return self.eval_spec(inv_fn, None, c)
 
